@@ -30,6 +30,9 @@ impl Check for C05 {
                 let pt = bytes_of_len(ctx, lp);
                 c05_case(ctx, &p, &aad, &pt);
                 built_then_edited_case(ctx, "Enc_structure", &p, &aad, &pt);
+                let p1 = gen_prot_variant(ctx, Origin::Built);
+                reprotect_case(ctx, "Enc_structure", &p1, &p, &aad, &pt);
+                decoded_edited_keeping_bytes_case(ctx, "Enc_structure", &p, &aad, &pt);
                 ctx.sample(|| J::obj(vec![("protected", J::Str(format!("{:?}", p.bytes.as_ref().map(|b| crate::rcbor::hex(b))))), ("aad_len", J::UInt(la as u64)), ("outcome", J::s("all helper outputs equal the RFC 8152 Enc_structure for the carrier's / caller's context; refusals observed"))]));
             }
             1 => {
@@ -44,6 +47,9 @@ impl Check for C05 {
                 let la = pick_len(ctx).min(300);
                 let aad = bytes_of_len(ctx, la);
                 c05_decoded_case(ctx, &p, &aad);
+                decoded_edited_keeping_bytes_case(ctx, "Enc_structure", &p, &aad, &[]);
+                let empty_wire = MProt { bytes: Some(vec![]), header: MHeader::default() };
+                decoded_edited_keeping_bytes_case(ctx, "Enc_structure", &empty_wire, &aad, &[]);
             }
             _ => {
                 let p = gen_prot_variant(ctx, Origin::Built);
